@@ -365,11 +365,22 @@ pub fn run(input: &Value) -> Case {
             let cells = catch(move || {
                 let mut short = false;
                 // Write::write must report the whole chunk as consumed: a wrong count becomes a marker cell
+                // (every other chunk goes through write_all and a flush follows each chunk: the std::io::Write methods
+                // the writer implements or inherits must not disturb the decoder state kept between writes)
                 let mut feed = |w: &mut dyn Write| {
-                    for c in chunks(&b2, &cuts2) {
-                        match w.write(c) {
-                            Ok(n) if n == c.len() => {}
-                            _ => short = true,
+                    for (i, c) in chunks(&b2, &cuts2).into_iter().enumerate() {
+                        if i % 2 == 1 {
+                            if w.write_all(c).is_err() {
+                                short = true;
+                            }
+                        } else {
+                            match w.write(c) {
+                                Ok(n) if n == c.len() => {}
+                                _ => short = true,
+                            }
+                        }
+                        if w.flush().is_err() {
+                            short = true;
                         }
                     }
                 };
@@ -521,7 +532,22 @@ pub fn run(input: &Value) -> Case {
 
 const CH: [u64; 12] = [0, 1, 2, 9, 10, 48, 99, 100, 127, 128, 254, 255];
 
+/// "source boundary" stream: every integer constant written in the sources of the SGR path (and its neighbours),
+/// harvested at run time, so that a threshold introduced by a change is reached by the numeric parameters drawn below
+fn bnd(rng: &mut Rng, cap: u64) -> u64 {
+    static B: std::sync::OnceLock<Vec<u64>> = std::sync::OnceLock::new();
+    let all = B.get_or_init(|| source_boundaries(&["src/decoder.rs", "src/encoder.rs", "src/face.rs", "src/common.rs"], 100_000));
+    let within: Vec<u64> = all.iter().copied().filter(|v| *v <= cap).collect();
+    if within.is_empty() {
+        rng.below(cap + 1)
+    } else {
+        *rng.pick(&within)
+    }
+}
 fn g_channel(rng: &mut Rng) -> u64 {
+    if rng.chance(1, 6) {
+        return bnd(rng, 255);
+    }
     if rng.chance(2, 3) {
         *rng.pick(&CH)
     } else {
@@ -649,7 +675,9 @@ fn g_unit(rng: &mut Rng) -> (String, bool) {
         14 => format!("{}", 100 + rng.below(8)),
         15 | 16 => format!("{};5;{}", code, if rng.chance(1, 2) { *rng.pick(&[0u64, 7, 8, 15, 16, 17, 51, 52, 196, 231, 232, 233, 254, 255]) } else { rng.below(256) }),
         17 | 18 | 19 => format!("{};2;{};{};{}", code, c(rng), c(rng), c(rng)),
-        20 => format!("{}:5:{}", code, rng.below(256)),
+        20 => format!("{}:5:{}", code, if rng.chance(1, 3) { bnd(rng, 255) } else { rng.below(256) }),
+        27 => format!("{}", bnd(rng, 100_000)),
+        28 => format!("{}{}5{}{}", code, if rng.chance(1, 2) { ';' } else { ':' }, if rng.chance(1, 2) { ';' } else { ':' }, bnd(rng, 300)),
         21 => format!("{}:2:{}:{}:{}", code, c(rng), c(rng), c(rng)),
         22 => format!("{}:2::{}:{}:{}", code, c(rng), c(rng), c(rng)),
         23 => format!("{}:2:{}:{}:{}:{}", code, rng.below(3), c(rng), c(rng), c(rng)),
@@ -767,6 +795,13 @@ pub fn generate(rng: &mut Rng, n: usize, tier: &str) -> Vec<Value> {
     for n in 0..256u64 {
         let p = if n % 2 == 0 { format!("38;5;{};48:5:{}", n, 255 - n) } else { format!("48;5;{};38:5:{};1", n, 255 - n) };
         v.push(json!({"kind": "write", "f0": plain, "hist": [{"sgr": p}, {"text": [120]}], "cuts": []}));
+        // every index in every role and both forms: cells (fg, bg) and, for the underline colour a cell cannot carry,
+        // the decoded command itself
+        for (a, b) in [(';', ';'), (':', ':')] {
+            let p = format!("38{a}5{b}{n};48{a}5{b}{n};58{a}5{b}{n}", a = a, b = b, n = n);
+            v.push(json!({"kind": "write", "f0": plain, "hist": [{"sgr": p}, {"text": [122]}], "cuts": []}));
+            v.push(json!({"kind": "dec", "bytes": format!("\x1b[58{a}5{b}{n}m", a = a, b = b, n = n).into_bytes(), "cuts": []}));
+        }
     }
     for base in [30u64, 40, 90, 100] {
         for k in 0..8 {
